@@ -1419,7 +1419,11 @@ impl Typer {
         for param in params.iter() {
             let name_str = self.hir_table.local_ident_name(param.name);
             let param_ty = match &param.ty {
-                Some(ty) => tast::Ty::from_hir(genv, ty, &current_tparams_env),
+                Some(ty) => {
+                    let annotated = tast::Ty::from_hir(genv, ty, &current_tparams_env);
+                    validate_local_annotation(genv, local_env, diagnostics, &annotated);
+                    annotated
+                }
                 None => self.fresh_ty_var(),
             };
             local_env.insert_var(param.name, param_ty.clone());
@@ -1474,6 +1478,9 @@ impl Typer {
                         .ty
                         .as_ref()
                         .map(|ty| tast::Ty::from_hir(genv, ty, &current_tparams_env));
+                    if let Some(annotated) = &annotated_ty {
+                        validate_local_annotation(genv, local_env, diagnostics, annotated);
+                    }
 
                     let param_ty = match annotated_ty {
                         Some(ann_ty) => {
@@ -1529,6 +1536,9 @@ impl Typer {
         let annotated_ty = annotation
             .as_ref()
             .map(|ty| tast::Ty::from_hir(genv, ty, &current_tparams_env));
+        if let Some(annotated) = &annotated_ty {
+            validate_local_annotation(genv, local_env, diagnostics, annotated);
+        }
 
         let (value_tast, value_ty) = if let Some(ann_ty) = &annotated_ty {
             (
@@ -1615,6 +1625,9 @@ impl Typer {
         let annotated_ty = annotation
             .as_ref()
             .map(|ty| tast::Ty::from_hir(genv, ty, &current_tparams_env));
+        if let Some(annotated) = &annotated_ty {
+            validate_local_annotation(genv, local_env, diagnostics, annotated);
+        }
 
         let (value_tast, value_ty) = if let Some(ann_ty) = &annotated_ty {
             (
@@ -3317,4 +3330,18 @@ fn lookup_bound_trait_methods(
         }
     }
     result
+}
+
+fn validate_local_annotation(
+    genv: &PackageTypeEnv,
+    local_env: &LocalTypeEnv,
+    diagnostics: &mut Diagnostics,
+    ty: &tast::Ty,
+) {
+    let tparams = local_env
+        .current_tparams_env()
+        .into_iter()
+        .map(|ident| ident.0)
+        .collect();
+    super::util::validate_ty(genv, diagnostics, ty, &tparams);
 }
